@@ -25,7 +25,12 @@ TECHNIQUE = (
     "while it can in the default session, combined with ECU-side session drop-outs: after the ECU has accepted the re-entry the scan "
     "of that session has to go on.  Skip maps are written in every shape of the two-dimensional grammar, including elements whose "
     "outer part names several sessions at once, followed or preceded by elements that give single sessions further ids; what the "
-    "scanners then leave out is judged end-to-end against the map the expression denotes"
+    "scanners then leave out is judged end-to-end against the map the expression denotes.  ECU-side faults put in front of the model "
+    "(faulty_ecu): a session in the middle of the requested list whose DiagnosticSessionControl request is never answered or gets a "
+    "reply that is no answer to it (incomplete negative response / response naming another service) while later sessions of the list "
+    "can be entered; service ids whose shorter probe lengths get such a reply while the longer ones are answered by the model; "
+    "identifiers of the scanned range that are never answered (all retransmissions) or get such a reply - the later sessions, the "
+    "longer probe lengths and the identifiers after them must still be requested and reported"
 )
 LEVEL_TEXT = (
     "Exploration: seeded virtual ECUs (p_session 0.3..1, p_service 0.1..0.6, p_identifier 0.05..0.4, with and without "
@@ -35,7 +40,8 @@ LEVEL_TEXT = (
     "scans for services 0x22/0x27/0x2E/0x31 over ranges of 64..1024 identifiers around 0x0000, 0x007F, 0xF186, 0xFFFF with payloads, "
     "check-session intervals, skip maps, skip-not-supported; ECU-side session drop-outs (with check-session) and lost replies "
     "(retries); ECUs whose session identifier 0xF186 is unreadable in some non-default sessions (service absent / requestOutOfRange / "
-    "no answer), with and without drop-outs.  Held = on every generated scan each claim of the scanner agrees with the ECU-side log."
+    "no answer), with and without drop-outs; unanswered / garbled session changes in the middle of the session list, garbled replies "
+    "to the shorter probe lengths of a service, never-answered and garbled identifiers inside the scanned range.  Held = on every generated scan each claim of the scanner agrees with the ECU-side log."
 )
 LEVEL_NOTE = (
     "Trusted: InProcessTransport in vf/ecu_models.py, the window/probe classification of the ECU-side log in this file, gallia's "
@@ -44,7 +50,7 @@ LEVEL_NOTE = (
 RULE = (
     "cases = (server seed, randomness parameters, behaviour switches, scanner kind, session list, skip map, option flags, identifier "
     "range, scanned service, payload, check-session interval, drop-out / loss positions, minimum-length map of the ECU, sessions without a readable "
-    "session identifier, run mode); non-trivial = the ECU answers at "
+    "session identifier, faulty session changes, garbled probe lengths, never-answered / garbled identifiers, run mode); non-trivial = the ECU answers at "
     "least one probe with something else than serviceNotSupported (services) resp. at least one identifier positively or the scan "
     "covers more than one session (identifiers); distinct = distinct case tuples; distinct_traces = distinct ECU-side logs"
 )
@@ -60,6 +66,11 @@ ASSUMPTIONS = [
     "ECUs with an unreadable session identifier keep it readable in the default session (where a drop-out leaves them); in the sessions concerned only the exact "
     "request '22 F1 86' is affected (or service 0x22 is absent from the model of that session, which then is the ground truth for 'implements'); identifier scans "
     "of service 0x22 are run against fully readable ECUs only (probe of 0xF186 and session read are the same request)",
+    "a reply that is neither a positive response of the requested service nor a complete (3-byte) negative response naming it is no answer of that service "
+    "('garbled'): it makes the service neither a finding nor not-supported, the longer probe lengths remain to be tried; such replies are only generated as an "
+    "incomplete negative response '7F sid' or a response naming another service, never for service id 0x3F (whose positive response id would be 0x7F); the "
+    "scanned-service requests for 0xF186 are never made deaf or garbled; a faulty request has no effect on the ECU state; a session counts as entered only on a "
+    "positive response that names it; the 'Abnormal replies' / 'Timeouts' tallies are outside the statement and not judged",
     "a skip expression that the option parser reads differently from the documented grammar is reported as such AND the scan is still judged against the map "
     "the expression denotes (what the skip option names), so a wrongly widened or narrowed skip shows up as not-probed / probed-excluded service ids or identifiers",
 ]
@@ -67,6 +78,8 @@ EXHAUSTIVE = {"quick": False, "thorough": False}
 EXHAUSTIVE_NOTE = ""
 
 NOT_SUPPORTED = (0x11, 0x7F)
+NO_FINDING = ("silence", "nrc-11", "nrc-7f", "nrc-13", "garbled")  # reply classes of a probe that do not make the service a finding
+NON_TERMINAL = ("silence", "nrc-13", "garbled")  # ... after which the longer probe lengths are still to be tried
 LENGTHS = (1, 2, 3, 5)
 IDENT_SERVICES = (0x22, 0x27, 0x2E, 0x31)
 
@@ -112,6 +125,15 @@ def required_reach(tier: str) -> dict[str, int]:
         # (by kind of non-answer: nrc-7f service absent in that session, nrc-31, silence)
         "services.dropout-recovered.session-unreadable": 8, "#services.dropout-recovered.session-unreadable.": 3,
         "identifiers.dropout-recovered.session-unreadable": 5, "#identifiers.dropout-recovered.session-unreadable.": 2,
+        # a session in the middle of the list whose change request is never answered / gets a reply that is no answer to it (the
+        # client's set_session raises), and a later session of the list entered afterwards
+        "services.session-change-raises.later-session-entered": 20, "#services.session-change-raises.later-session-entered.": 2,
+        # service ids whose shorter probe lengths get a reply that is no answer of that service (incomplete / names another service)
+        # while a longer probe length is answered meaningfully
+        "services.sid-with-garbled-probe": 200, "services.found-after-garbled": 60, "#services.found-after-garbled.": 2,
+        # identifiers the ECU never answers (all retransmissions) resp. answers with such a reply, with further identifiers after them
+        "identifiers.never-answered-identifier.later-probed": 50, "identifiers.garbled-reply.later-probed": 50,
+        "#identifiers.garbled-reply.later-probed.": 2,
     }
 
 
@@ -330,7 +352,7 @@ def split_windows(log: list[Any], lost: set[int], sessions_given: bool) -> tuple
         delivered = r is not None and i not in lost
         if sessions_given and len(q) == 2 and q[0] == 0x10 and q[1] != 0:
             s = q[1] & 0x7F
-            positive = r is not None and r[0] == 0x50
+            positive = r is not None and len(r) >= 2 and r[0] == 0x50 and r[1] & 0x7F == s
             if cur is not None and cur.session == s:
                 if positive:
                     cur.recovered += 1
@@ -367,7 +389,72 @@ def reply_class(q: bytes, r: bytes | None, delivered: bool = True) -> str:
     n = nrc_of(q, r)
     if n is not None:
         return f"nrc-{n:02x}"
-    return "positive" if r[0] == (q[0] + 0x40) & 0xFF else "other"
+    return "positive" if r[0] == (q[0] + 0x40) & 0xFF else "garbled"  # neither a positive nor a complete negative response of the requested service
+
+
+GARBLE_KINDS = ("truncated", "foreign-negative", "foreign-positive")
+
+
+def garbled_reply(sid: int, kind: str) -> bytes:
+    """a reply that is not an answer of service `sid`: an incomplete negative response, or a response that names another service"""
+    if kind == "truncated":
+        return bytes([0x7F, sid])
+    other = sid ^ 0x01
+    if (other + 0x40) & 0xFF == 0x7F:
+        other = sid ^ 0x02
+    if kind == "foreign-negative":
+        return bytes([0x7F, other, 0x31])
+    return bytes([(other + 0x40) & 0xFF, 0x00])
+
+
+def identifier_of(service: int, q: bytes) -> int | None:
+    """the identifier field of a request of `service` in the ISO layout (0x27: sub-function byte, 0x31: after the sub-function)"""
+    if not q or q[0] != service:
+        return None
+    if service == 0x27:
+        return q[1] if len(q) >= 2 else None
+    if service == 0x31:
+        return (q[2] << 8) | q[3] if len(q) >= 4 else None
+    return (q[1] << 8) | q[2] if len(q) >= 3 else None
+
+
+def faulty_ecu(case: dict[str, Any], srv: Any, st: Any) -> Any:
+    """ECU-side faults of the generated case, put in front of the model's request handler `st` (gallia's UDSServerTransport).  A faulty
+    request is not processed by the model (no effect on the ECU state); everything else goes to the unchanged model.
+      dsc_fault    {session id: 'silent' | garble kind}: DiagnosticSessionControl for that session is never answered / answered with a
+                   reply that is no answer to it, from whatever session it is asked
+      garble       {session: {service id: [garble kind, [payload lengths]]}}: the all-zero requests of that service with one of these
+                   payload lengths are answered with such a reply while the ECU is in that session
+      deaf_ids     identifiers of the scanned service whose requests are never answered
+      garbled_ids  {identifier: garble kind} identifiers of the scanned service whose requests get such a reply"""
+    dsc = {int(k): v for k, v in (case.get("dsc_fault") or {}).items()}
+    garble = {(int(sess), int(sid)): (v[0], set(v[1])) for sess, d in (case.get("garble") or {}).items() for sid, v in d.items()}
+    deaf = set(case.get("deaf_ids") or [])
+    gids = {int(k): v for k, v in (case.get("garbled_ids") or {}).items()}
+    if not (dsc or garble or deaf or gids):
+        return st
+    service = case.get("service")
+    inner = st.handle_request
+
+    async def handle_request(pdu: bytes) -> tuple[bytes | None, float]:
+        q = bytes(pdu)
+        if dsc and len(q) == 2 and q[0] == 0x10 and (q[1] & 0x7F) in dsc:
+            kind = dsc[q[1] & 0x7F]
+            return (None if kind == "silent" else garbled_reply(0x10, kind)), 0.0
+        if garble and len(q) >= 2 and not any(q[1:]):
+            g = garble.get((srv.state.session, q[0]))
+            if g is not None and len(q) - 1 in g[1]:
+                return garbled_reply(q[0], g[0]), 0.0
+        if service is not None and (deaf or gids) and q != SESSION_READ:
+            did = identifier_of(service, q)
+            if did is not None and did in deaf:
+                return None, 0.0
+            if did is not None and did in gids:
+                return garbled_reply(service, gids[did]), 0.0
+        return await inner(q)
+
+    st.handle_request = handle_request
+    return st
 
 
 def gen_server_case(rng: Any, need: list[int] | None = None, silence_ok: bool = True) -> dict[str, Any]:
@@ -422,6 +509,10 @@ def gen_services_case(rng: Any) -> dict[str, Any]:
     case["session_read"] = gen_session_read(rng, srv) if check and sessions and rng.random() < (0.6 if dropouts else 0.15) else {}
     if case["session_read"]:
         srv = make_server(case)
+    case["dsc_fault"] = {}
+    if rng.random() < 0.12 and (plan := gen_dsc_fault(rng, srv)) is not None:
+        sessions, case["dsc_fault"] = plan
+        sessions_opt = list(sessions)
     skip: dict[int, list[int] | None] = {}
     if rng.random() < 0.5:
         cand = sorted(set(sessions) | set(model_of(srv)))
@@ -448,7 +539,48 @@ def gen_services_case(rng: Any) -> dict[str, Any]:
         "dropouts": sorted(rng.sample(range(1, 600), rng.randint(1, 4))) if dropouts and sessions else [],
         "mute": gen_mute(rng, srv) if rng.random() < 0.4 else {},
     })
+    case["garble"] = gen_garble(rng, srv, case["mute"]) if rng.random() < 0.3 else {}
     return case
+
+
+def gen_dsc_fault(rng: Any, srv: Any) -> tuple[list[int], dict[str, str]] | None:
+    """an explicit session list with a session in its MIDDLE whose DiagnosticSessionControl request the ECU never answers, or answers
+    with a reply that is no answer to it (the client's session change raises), while the sessions after it can be entered in the given
+    order: [first, FAULTY.., (1,) later]; sessions of the first level are entered from the default session"""
+    trans = transitions_of(srv)
+    lvl1 = [x for x in trans.get(1, []) if x != 1]
+    first = rng.choice(lvl1 + [1])
+    later: list[int] = []
+    if first != 1:
+        later.append(1)  # every session of the model leads back to the default session
+    rest = [x for x in lvl1 if x != first]
+    if rest:
+        later.append(rng.choice(rest))
+    if not later:
+        return None
+    if len(later) == 2 and later[1] in trans.get(first, []) and rng.random() < 0.5:
+        later = later[1:]  # directly enterable from the session scanned before the faulty one
+    used = {first, *later}
+    pool = [x for x in sorted(trans) if x not in used] + [x for x in (rng.randint(2, 0x7E), rng.randint(2, 0x7E)) if x not in used]
+    faulty = list(dict.fromkeys(rng.sample(pool, min(len(pool), rng.choice([1, 1, 2])))))
+    return [first] + faulty + later, {str(x): rng.choice(["silent", "silent", *GARBLE_KINDS]) for x in faulty}
+
+
+def gen_garble(rng: Any, srv: Any, mute: dict[str, dict[str, int]]) -> dict[str, dict[str, list[Any]]]:
+    """per session a few service ids (mostly implemented ones) whose all-zero requests of some of the shorter probe lengths are
+    answered with a reply that is no answer of that service; the longer lengths are answered by the unchanged model"""
+    out: dict[str, dict[str, list[Any]]] = {}
+    for sess, sids in sorted(model_of(srv).items()):
+        if rng.random() < 0.2:
+            continue
+        muted = {int(x) for x in (mute.get(str(sess)) or {})}
+        impl = sorted(x for x in sids if x not in MUTE_EXEMPT and x not in muted and x != 0x3F)
+        chosen = set(rng.sample(impl, min(len(impl), rng.randint(1, 6)))) if impl else set()
+        # (not 0x3F: its positive response id would be 0x7F, a truncated negative response is indistinguishable from a positive one)
+        chosen.update(x for x in (rng.randrange(256) for _ in range(rng.randint(0, 2))) if x not in MUTE_EXEMPT and x not in muted and x != 0x3F)
+        if chosen:
+            out[str(sess)] = {str(sid): [rng.choice(GARBLE_KINDS), rng.choice([[1], [1], [1, 2], [1, 2, 3], [2], [1, 3]])] for sid in sorted(chosen)}
+    return out
 
 
 MUTE_EXEMPT = (0x10, 0x11, 0x22, 0x3E)  # session handling of the scanner itself: session change, reset, session read, tester present
@@ -478,6 +610,7 @@ async def scan_services(case: dict[str, Any]) -> dict[str, Any]:
     srv = make_server(case)
     tr = em.InProcessTransport(srv, budget=200_000, dropouts=set(case["dropouts"]),
                                drop_filter=lambda q: len(q) >= 2 and not any(q[1:]) and q[0] != 0x3E, mute=mute_map(case))
+    faulty_ecu(case, srv, tr.st)
     cap = em.fresh_capture()
     opts: dict[str, Any] = {"sessions": case["sessions_opt"], "check_session": case["check_session"], "scan_response_ids": case["scan_response_ids"],
                             "reset": case["reset"], "skip": list(case["skip_expr"]) if case["skip_expr"] else {}}
@@ -503,7 +636,7 @@ async def probe_fresh(case: dict[str, Any], session: int, sid: int, lengths: lis
         if need is not None and n < need:
             out[n] = "silence"
             continue
-        reply, _ = await UDSServerTransport(srv, em.TargetURI(em.TARGET)).handle_request(q)
+        reply, _ = await faulty_ecu(case, srv, UDSServerTransport(srv, em.TargetURI(em.TARGET))).handle_request(q)
         out[n] = reply_class(q, reply)
     return out
 
@@ -520,11 +653,13 @@ def check_services(ctx: Any, case: dict[str, Any]) -> None:
     given = case["sessions_opt"] is not None
     ident = ("services", case["server_seed"], sorted(case["rp"].items()), case["behavior_off"], case["sessions_opt"], case["check_session"],
              case["scan_response_ids"], case["reset"], case["skip_expr"], case["full"], case["dropouts"], sorted(mute_map(case).items()),
-             sorted((case.get("session_read") or {}).items()))
+             sorted((case.get("session_read") or {}).items()), sorted((case.get("dsc_fault") or {}).items()), repr(sorted((case.get("garble") or {}).items())))
     w: dict[str, Any] = {k: case[k] for k in ("kind", "server_seed", "rp", "behavior_off", "sessions_opt", "sessions", "check_session", "scan_response_ids",
                                             "reset", "skip", "skip_expr", "full", "dropouts")}
     w["mute"] = case.get("mute") or {}
     w["session_read"] = case.get("session_read") or {}
+    w["dsc_fault"] = case.get("dsc_fault") or {}
+    w["garble"] = case.get("garble") or {}
     mute = mute_map(case)
     if mute:
         ctx.reach("services.min-length-ecu")
@@ -597,6 +732,16 @@ def check_services(ctx: Any, case: dict[str, Any]) -> None:
                 ctx.violation(f"services/session-requested/{kind}", "DiagnosticSessionControl was sent for a session that is not to be scanned", {**w, "session": s})
         if any(not ok for _, ok in asked):
             ctx.reach("services.session-refused")
+        # a session change that got no answer / no answer to it (the client raises), followed by a later session of the list that was entered
+        dsc_replies = [(q[1] & 0x7F, r) for _, q, r, _ in log if len(q) == 2 and q[0] == 0x10 and q[1] != 0]
+        for j, (s, r) in enumerate(dsc_replies):
+            cls = reply_class(bytes([0x10, s]), r)
+            if cls in ("silence", "garbled") and s in sessions:
+                later_entered = [x for x, r2 in dsc_replies[j + 1 :] if x in sessions[sessions.index(s) + 1 :] and r2 is not None and r2[0] == 0x50]
+                if later_entered:
+                    ctx.reach("services.session-change-raises.later-session-entered")
+                    ctx.reach(f"services.session-change-raises.later-session-entered.{cls}")
+                    break
         if any(s in skip and skip[s] is None for s in sessions):
             ctx.reach("services.skip-whole-session")
         entered = [wd.session for wd in wins]
@@ -689,8 +834,8 @@ def check_services(ctx: Any, case: dict[str, Any]) -> None:
         for sid, ps in probes.items():
             for before, q, r, delivered, _ in ps:
                 cls = reply_class(q, r, delivered)
-                ctx.reach(f"services.reply.{cls if cls in ('nrc-11', 'nrc-7f', 'nrc-13', 'silence') else 'meaningful'}")
-                if cls not in ("silence", "nrc-11", "nrc-7f", "nrc-13") and sid not in found_gt:
+                ctx.reach(f"services.reply.{cls if cls in NO_FINDING else 'meaningful'}")
+                if cls not in NO_FINDING and sid not in found_gt:
                     found_gt[sid] = cls
                     if len(q) > 2:
                         ctx.reach("services.found-at-length>1")
@@ -706,12 +851,18 @@ def check_services(ctx: Any, case: dict[str, Any]) -> None:
             classes = [reply_class(p[1], p[2], p[3]) for p in ps]
             if "silence" in classes:
                 ctx.reach("services.sid-with-silent-probe")
-                k = next((j for j, c in enumerate(classes) if c not in ("silence", "nrc-11", "nrc-7f", "nrc-13")), None)
+                k = next((j for j, c in enumerate(classes) if c not in NO_FINDING), None)
                 if k is not None and "silence" in classes[:k]:
                     ctx.reach("services.found-after-silence")
                     if mute.get((real_S, sid)) is not None:
                         ctx.reach("services.found-after-silence.min-length-ecu")
-            if any(c not in ("silence", "nrc-13") for c in classes):
+            if "garbled" in classes:
+                ctx.reach("services.sid-with-garbled-probe")
+                k = next((j for j, c in enumerate(classes) if c not in NO_FINDING), None)
+                if k is not None and "garbled" in classes[:k]:
+                    ctx.reach("services.found-after-garbled")
+                    ctx.reach(f"services.found-after-garbled.{'malformed' if any(len(p[2] or b'') == 2 and (p[2] or b'x')[0] == 0x7F for p in ps[:k]) else 'mismatch'}")
+            if any(c not in NON_TERMINAL for c in classes):
                 continue
             tried = {len(p[1]) - 1 for p in ps}
             missing = [n for n in LENGTHS if n not in tried]
@@ -719,11 +870,11 @@ def check_services(ctx: Any, case: dict[str, Any]) -> None:
                 continue
             would = vtime.run(probe_fresh(case, real_S, sid, missing))
             wp = {**ww, "sid": sid, "probes": [(p[1], p[2]) for p in ps], "lengths_never_sent": missing, "fresh_ecu_answers": would}
-            if any(c not in ("silence", "nrc-11", "nrc-7f", "nrc-13") for c in would.values()):
+            if any(c not in NO_FINDING for c in would.values()):
                 ctx.violation("services/missed-service/answers-only-longer-probe", "the probing of a service id was given up after an unanswered / length-error probe; the ECU answers a longer "
                               "probe length of that service with something other than not-supported / length error, the service is not reported", wp)
             else:
-                ctx.violation(f"services/probe-lengths-not-exhausted/after-{'silence' if classes[-1] == 'silence' else 'nrc-13'}", "the probing of a service id was given up after an unanswered / "
+                ctx.violation(f"services/probe-lengths-not-exhausted/after-{classes[-1]}", "the probing of a service id was given up after an unanswered / "
                               "length-error probe although further probe lengths remain", wp)
         for sid in sorted(set(found_gt) - got):
             ctx.violation(f"services/false-negative/{found_gt[sid] if found_gt[sid].startswith('nrc') else 'positive'}",
@@ -731,7 +882,7 @@ def check_services(ctx: Any, case: dict[str, Any]) -> None:
         for sid in sorted(got - set(found_gt)):
             ps = probes.get(sid, [])
             classes = [reply_class(p[1], p[2], p[3]) for p in ps]
-            kind = "never-probed" if not ps else next((c for c in ("nrc-13", "nrc-7f", "nrc-11", "silence") if c in classes), "other")
+            kind = "never-probed" if not ps else next((c for c in ("nrc-13", "nrc-7f", "nrc-11", "silence", "garbled") if c in classes), "other")
             ctx.violation(f"services/false-positive/{kind}", "a service is reported although every probe was answered with not-supported / length error / silence",
                           {**ww, "sid": sid, "probes": [(p[1], p[2]) for p in ps]})
         for sid in sorted(got - model.get(real_S, set()) - tainted):
@@ -798,6 +949,15 @@ def gen_ident_case(rng: Any) -> dict[str, Any]:
         group = plant_skip_group(rng, skip, sorted(set(sessions) | {1, 2, 3}), list(sessions), some_dids)
     n_sessions = max(1, len(sessions))
     subs = 3 if service == 0x31 else 1
+    # identifiers the ECU never answers (every retransmission is lost on it), identifiers answered with a reply that is no answer of
+    # the scanned service; never the session identifier itself, a few of them at the very start of the range
+    hi = min(end, 0x7F) if service == 0x27 else end
+    span = [x for x in {start, start + 1, *(rng.randint(start, max(start, hi)) for _ in range(6))} if start <= x <= hi and x != 0xF186]
+    rng.shuffle(span)
+    n_deaf = rng.randint(1, 3) if rng.random() < 0.25 else 0
+    n_garbled = rng.randint(1, 3) if rng.random() < 0.25 else 0
+    case["deaf_ids"] = sorted(span[:n_deaf])
+    case["garbled_ids"] = {str(x): rng.choice(GARBLE_KINDS) for x in sorted(span[n_deaf : n_deaf + n_garbled])}
     case.update({
         "kind": "identifiers", "service": service, "sessions_opt": sessions_opt, "sessions": sessions, "start": start, "end": end, "payload": payload,
         "check_session": check, "skip": {str(k): v for k, v in skip.items()}, "skip_expr": render_skip(rng, skip, group) if skip else [],
@@ -816,6 +976,7 @@ async def scan_identifiers(case: dict[str, Any]) -> dict[str, Any]:
     service = case["service"]
     tr = em.InProcessTransport(srv, budget=400_000, dropouts=set(case["dropouts"]), losses=set(case["losses"]),
                                drop_filter=lambda q: q[0] == service and q != b"\x22\xf1\x86")
+    faulty_ecu(case, srv, tr.st)
     cap = em.fresh_capture()
     opts: dict[str, Any] = {"sessions": case["sessions_opt"], "start": case["start"], "end": case["end"], "service": service,
                             "payload": case["payload"], "check_session": case["check_session"], "skip": list(case["skip_expr"]) if case["skip_expr"] else {},
@@ -860,9 +1021,12 @@ def check_identifiers(ctx: Any, case: dict[str, Any]) -> None:
     ambiguous = service == 0x22 and not payload and n is not None and given
     keys = ("kind", "server_seed", "rp", "behavior_off", "service", "sessions_opt", "sessions", "start", "end", "payload", "check_session", "skip", "skip_expr",
             "skip_not_supported", "full", "dropouts", "losses")
-    ident = tuple(repr(case[k]) for k in keys) + (repr(sorted((case.get("session_read") or {}).items())),)
+    ident = tuple(repr(case[k]) for k in keys) + (repr(sorted((case.get("session_read") or {}).items())), repr(case.get("deaf_ids") or []),
+                                                   repr(sorted((case.get("garbled_ids") or {}).items())))
     w: dict[str, Any] = {k: case[k] for k in keys}
     w["session_read"] = case.get("session_read") or {}
+    w["deaf_ids"] = case.get("deaf_ids") or []
+    w["garbled_ids"] = case.get("garbled_ids") or {}
     svc = f"service-{service:02x}"
     try:
         out = vtime.run(scan_identifiers(case))
@@ -1088,7 +1252,7 @@ def check_identifiers(ctx: Any, case: dict[str, Any]) -> None:
             ctx.violation(f"identifiers/probed-outside-request/{where}/{svc}", "an identifier outside the requested range / skip map / sub-function set was sent to the ECU", {**ww, "identifier": d[0], "sub_function": d[1]})
             break
         positives = 0
-        for d in order:
+        for pos, d in enumerate(order):
             t = tx[d]
             if ambiguous and d[0] == 0xF186:
                 continue
@@ -1098,6 +1262,13 @@ def check_identifiers(ctx: Any, case: dict[str, Any]) -> None:
             if len(t) > 1:
                 ctx.reach("identifiers.retry")
             last = t[-1]
+            if pos < len(order) - 1:
+                # the scan went on to further identifiers after one that the ECU never answered / answered with a reply that is no answer
+                if all(x[2] is None for x in t):
+                    ctx.reach("identifiers.never-answered-identifier.later-probed")
+                elif reply_class(bytes([service]), last[2]) == "garbled":
+                    ctx.reach("identifiers.garbled-reply.later-probed")
+                    ctx.reach(f"identifiers.garbled-reply.later-probed.{'malformed' if len(last[2] or b'') == 2 else 'mismatch'}")
             if last[3] and last[2] is not None and last[2][0] == service + 0x40:
                 positives += 1
         if ambiguous and any(d[0] == 0xF186 for d in E_eff):
